@@ -40,3 +40,41 @@ Definition schema_at (s : schema) (acts : list action) (i : nat) : schema := fol
 
 (* Sim: the engine catalog is the one the tool believes in *)
 Definition Sim (s : schema) (c : catalog) : Prop := c = catalog_of s.
+
+(* ---------- the full statement of C04 on one migration, as a boolean (the oracle applied to the MODEL's
+   statements) ---------- *)
+Definition migration_ok (s : schema) (acts : list action) : bool :=
+  match apply_all s acts, gen_plan s acts with
+  | Ok s', Ok L =>
+      match run (catalog_of s) (List.concat L) with
+      | RunOk c => catalog_eqb c (catalog_of s')
+      | RunErr _ _ => false
+      end
+  | _, _ => false
+  end.
+
+Definition judged (s : schema) (acts : list action) : bool :=
+  match apply_all s acts with
+  | Ok s' => (assumptions_ok s && assumptions_ok s' && plan_a6_ok s acts)%bool
+  | Err _ => false
+  end.
+
+Definition in_known_class (s : schema) (acts : list action) : bool :=
+  existsb (fun k => k s acts) known_classifiers.
+
+(* first engine refusal of a migration, by rule text *)
+Definition migration_error (s : schema) (acts : list action) : option string :=
+  match gen_plan s acts with
+  | Ok L => match run (catalog_of s) (List.concat L) with RunErr _ (EErr r _) => Some r | RunOk _ => None end
+  | Err _ => None
+  end.
+
+Definition col_auto (c : catalog) (t col : string) : option bool :=
+  match find_tb t c with
+  | Some tb => option_map mc_auto (find (fun x => String.eqb (mc_name x) col) (tb_cols tb))
+  | None => None
+  end.
+
+(* plain column / table builders for witnesses *)
+Definition pcol (n : string) (ty : column_type) (nullable : bool) : column_def :=
+  mkCol n ty nullable None None None None None None.
